@@ -188,7 +188,7 @@ def _leaves(x):
 
 
 NON_OBJECTS = [b"[1,2]", b'"str"', b"1", b"1.5", b"null", b"true", b"false", b"[]", b'[{"a":1}]', b"", b" ", b"{", b'{"a":1}x', b"\xff\xfe", b"{'a':1}",
-               b"NaN", b'{"a":1}{"b":2}', b"\xef\xbb\xbf[1]", '["é"]'.encode("utf-16"), b"0x10", b"-", b'"\\ud800"']
+               b"NaN", b'"{\\"sub\\":\\"admin\\",\\"exp\\":99999999999}"', b'"{}"', b'"[]"', b'{"a":1}{"b":2}', b"\xef\xbb\xbf[1]", '["é"]'.encode("utf-16"), b"0x10", b"-", b'"\\ud800"']
 
 
 def h_negative(ctx):
